@@ -40,6 +40,7 @@ type c04Backend struct {
 
 var c04b *c04Backend
 var c04dead string
+var c04seq int
 
 func c04Get() *c04Backend {
 	if c04b != nil {
@@ -285,10 +286,11 @@ func init() {
 	register("c04_wire", func(w *World, op Op) Obs {
 		a := c04Get()
 		var rs []interface{}
-		for i, c := range c04Cases(op) {
+		for _, c := range c04Cases(op) {
 			dom := c04Cfg(w, c.str("domain"), c.boolean("dead"))
 			a.set(c.str("beh"))
-			name := fmt.Sprintf("c04w%d", i)
+			c04seq++
+			name := fmt.Sprintf("c04w%d", c04seq)
 			kind := "tls"
 			if !c.boolean("tls") {
 				kind = "plain"
@@ -313,7 +315,7 @@ func init() {
 			recv, _ := o["recv"].(string)
 			r["reqs"] = a.take()
 			if strings.HasPrefix(recv, tag+" OK") {
-				marker := fmt.Sprintf("c04mk%d", i)
+				marker := fmt.Sprintf("c04mk%d", c04seq)
 				o2 := opSend(w, Op{"conn": name, "data": "m1 CREATE " + marker + "\r\n", "until": "tag:m1", "timeout_ms": tmo})
 				r["create"] = o2["recv"]
 				r["stores"] = c04MarkerStore(w, marker)
